@@ -783,24 +783,14 @@ func (o *oracle) online(on bool) {
 		o.isOn = true
 		if o.honest && o.hasLT {
 			o.expected = o.responderStream(o.loaded)
-			// known-finding input class: the responder lacks a block of the locally loaded prefix
-			// and the first `skip` links of its traversal reach beyond that prefix
-			lacks := false
-			for _, i := range o.prefix {
-				if !o.rem[o.lt[i].block] {
-					lacks = true
+			// known-finding input class skip-prefix-mismatch (decided from the case alone): among
+			// the first `skip` links of the responder's own traversal there is one beyond the locally
+			// loaded prefix that the responder holds and the requestor does not
+			for k, e := range o.expected {
+				if k >= o.loaded {
+					break
 				}
-			}
-			if lacks {
-				for k, e := range o.expected {
-					if k >= o.loaded {
-						break
-					}
-					if e.node >= len(o.prefix) {
-						o.lacksPref = true
-					}
-				}
-				if len(o.lt) > 0 && !o.rem[o.lt[0].block] {
+				if e.node >= len(o.prefix) && e.present && !o.loc[e.c] {
 					o.lacksPref = true
 				}
 			}
@@ -950,11 +940,8 @@ func (o *oracle) result(r types.AsyncLoadResult, d *Drv) {
 	}
 	if cls != "" {
 		o.failed = true
-		if o.lacksPref { // known-finding input classes, decided from the case alone
+		if o.lacksPref { // known-finding input class, decided from the case alone
 			cls = "skip-prefix-mismatch"
-			if len(o.lt) > 0 && !o.rem[o.lt[0].block] {
-				cls = "root-not-found-abort"
-			}
 		}
 		o.out.Fail(cls, "honest exchange: load of %d at %s answered %q; available=%v (local=%v)", cur, o.curPath, render(r, nil), avail, o.loc[o.lt[i].block])
 		return
